@@ -35,6 +35,21 @@ Lemma py_index_N {A} (l : list A) (n : N) :
   py_index l (Z.of_N n) = match nth_error l (N.to_nat n) with Some x => Ret x | None => Raise EIndex end.
 Proof. rewrite py_index_nonneg by lia. now rewrite <- N_nat_Z, Nat2Z.id. Qed.
 
+Lemma map_eq_Forall2 {A B} (f : A -> B) (a b : list A) : map f a = map f b -> Forall2 (fun x y => f x = f y) a b.
+Proof.
+  revert b. induction a as [|x a IH]; intros [|y b] E; cbn in E; try discriminate; constructor.
+  - now inversion E.
+  - apply IH. now inversion E.
+Qed.
+Lemma Forall2_nth {A} (R : A -> A -> Prop) (a b : list A) (i : nat) : Forall2 R a b ->
+  match nth_error a i, nth_error b i with Some x, Some y => R x y | None, None => True | _, _ => False end.
+Proof.
+  intros F. revert i. induction F as [|x y a b Hxy F IH]; intros [|i]; cbn; auto. apply IH.
+Qed.
+
+Lemma Forall2_len {A} (R : A -> A -> Prop) (a b : list A) : Forall2 R a b -> length a = length b.
+Proof. induction 1; cbn; congruence. Qed.
+
 Section BridgeP.
   Variable H : Type.
   Variable h_type : H -> functype.
@@ -197,4 +212,335 @@ Section BridgeP.
       + intros [_ E]. now apply has_inner_iff.
     - intros n E. rewrite (num_out_agree o B), (num_out_correct V _ _ E). now rewrite <- nat_N_Z, N2Z.id.
   Qed.
+
+  (* ================= the port classification of the specification through a few views of the operation ========= *)
+  Definition is_cf (o : op V) : bool := match o with OBlock _ _ _ _ | OExit _ => true | _ => false end.
+  Definition spk_view (ord : bool) (sg : option rows) (st : option kind) (site df cf : bool) (cfn : option nat)
+             (d : dir) (z : Z) : pspec :=
+    if z =? -1 then (if ord then Port OrderKind else NoPort)
+    else if z <? 0 then Unspecified
+    else
+      let i := Z.to_nat z in
+      match sg with
+      | Some (ins, outs) =>
+          let row := match d with In => ins | Out => outs end in
+          match nth_error row i with
+          | Some t => Port (ValueKind t)
+          | None => if Nat.eqb i (length row) then
+                      match st with Some k => Port k | None => if site then Unspecified else NoPort end
+                    else NoPort
+          end
+      | None =>
+          if df then Unspecified
+          else if cf then match cfn with Some n => if Nat.ltb i n then Port CFKind else NoPort | None => Unspecified end
+          else if Nat.eqb i 0 then match st with Some k => Port k | None => if site then Unspecified else NoPort end
+          else NoPort
+      end.
+  Lemma spk_is_view (o : op V) d z :
+    spec_port_kind ct o d z =
+    spk_view (has_order_port o d) (spec_sig o) (static_port ct o d) (static_site o d) (dataflow_node o) (is_cf o)
+             (cf_ports o d) d z.
+  Proof.
+    unfold spec_port_kind, spk_view. destruct (z =? -1); [reflexivity|]. destruct (z <? 0); [reflexivity|].
+    destruct o; reflexivity.
+  Qed.
+
+  Definition rows2_same (a b : rows) : Prop := Forall2 ty_same (fst a) (fst b) /\ Forall2 ty_same (snd a) (snd b).
+  Definition opt_rel {A} (R : A -> A -> Prop) (a b : option A) : Prop :=
+    match a, b with Some x, Some y => R x y | None, None => True | _, _ => False end.
+  Lemma spk_view_same ord sg sg' st st' site df cf cfn d z :
+    opt_rel rows2_same sg sg' -> opt_rel kind_same st st' ->
+    pspec_same (spk_view ord sg st site df cf cfn d z) (spk_view ord sg' st' site df cf cfn d z).
+  Proof.
+    intros Hsg Hst. unfold spk_view.
+    destruct (z =? -1); [destruct ord; exact I|]. destruct (z <? 0); [exact I|].
+    assert (Hstat : pspec_same match st with Some k => Port k | None => if site then Unspecified else NoPort end
+                               match st' with Some k => Port k | None => if site then Unspecified else NoPort end).
+    { destruct st, st'; cbn in Hst; try contradiction; [exact Hst|destruct site; exact I]. }
+    destruct sg as [[i o]|], sg' as [[i' o']|]; cbn in Hsg; try contradiction.
+    - destruct Hsg as [Hi Ho]. cbn [fst snd] in Hi, Ho.
+      assert (Hrow : Forall2 ty_same (match d with In => i | Out => o end) (match d with In => i' | Out => o' end))
+        by (destruct d; assumption).
+      pose proof (Forall2_nth _ _ _ (Z.to_nat z) Hrow) as Hn. pose proof (Forall2_len _ _ _ Hrow) as Hl.
+      cbv zeta. destruct (nth_error _ _), (nth_error _ _); try contradiction; [exact Hn|].
+      rewrite Hl. destruct (Nat.eqb _ _); [exact Hstat|exact I].
+    - destruct df; [exact I|]. destruct cf.
+      + destruct cfn; [|exact I]. destruct (Nat.ltb _ _); exact I.
+      + destruct (Nat.eqb _ _); [exact Hstat|exact I].
+  Qed.
 End BridgeP.
+
+(* ================= encoding and decoding preserve what the specification assigns ================= *)
+Section CodecBridge.
+  Variables H SH : Type.
+  Variable h_enc : H -> SH.
+  Variable h_dec : SH -> H.
+  Variable h_nf : H -> H.
+  Variable h_type : H -> functype.
+  Variable h_ok : H -> bool.
+  Hypothesis h_rt : forall h, h_ok h = true ->
+    h_dec (h_enc h) = h_nf h /\ h_enc (h_nf h) = h_enc h /\ func_to_serial (h_type (h_nf h)) = func_to_serial (h_type h).
+  Notation cop := (CodecOps.op H).
+  Notation V := (V H).
+  Notation vt := (vt H h_type).
+  Notation ct := (ct H h_type).
+  Notation facts_of := (op_facts H h_type).
+  Notation reports_of := (c06_reports H h_type).
+  Notation assigned_of := (c06_assigned H h_type).
+  Notation nf := (op_nf H h_nf).
+  Notation OK := (OpOK H h_ok).
+
+  Lemma nf_bridge_ok (o : cop) : bridge_ok (nf o) = true.
+  Proof. destruct o; reflexivity. Qed.
+  Lemma OK_bridge_ok (o : cop) : OK o -> bridge_ok o = true.
+  Proof. intros [O _]. now apply (op_ok_bridge_ok H h_ok). Qed.
+  Lemma nf_facts (o : cop) : OK o -> facts_of (nf o) = facts_of o.
+  Proof. intros O. exact (proj2 (proj2 (op_roundtrip_all H SH h_enc h_dec h_nf h_type h_ok h_rt o 0%N O))). Qed.
+
+  Lemma enc_rows_same (a b : rows) : enc_rows a = enc_rows b -> rows2_same a b.
+  Proof.
+    destruct a as [i o], b as [i' o']. unfold enc_rows, encs. cbn. intros E. inversion E.
+    split; now apply map_eq_Forall2.
+  Qed.
+  Lemma spec_sig_nf (o : cop) : OK o ->
+    option_map enc_rows (spec_sig (to_c06 (nf o))) = option_map enc_rows (spec_sig (to_c06 o)).
+  Proof.
+    intros O. rewrite <- (outer_assigned H h_type _ (nf_bridge_ok o)), <- (outer_assigned H h_type _ (OK_bridge_ok o O)).
+    now rewrite nf_facts.
+  Qed.
+  Lemma spec_inner_nf (o : cop) : OK o ->
+    option_map enc_rows (spec_inner_sig (to_c06 (nf o))) = option_map enc_rows (spec_inner_sig (to_c06 o)).
+  Proof. intros O. rewrite <- !(inner_assigned H h_type). now rewrite nf_facts. Qed.
+
+  Lemma row_same_nf l : row_same l (row_nf l).
+  Proof. unfold row_same. symmetry. apply encs_nf. Qed.
+  Lemma ty_same_nf t : ty_same t (ty_nf t).
+  Proof. unfold ty_same. symmetry. apply enc_nf. Qed.
+  Lemma kind_same_poly_nf p : kind_same (FunctionKind (pl p)) (FunctionKind (pl (poly_nf p))).
+  Proof. destruct p as [ps [i o r]]. cbn. repeat split; apply row_same_nf. Qed.
+
+  Lemma bools_nf (o : cop) d :
+    has_order_port (to_c06 (nf o)) d = has_order_port (to_c06 o) d /\
+    static_site (to_c06 (nf o)) d = static_site (to_c06 o) d /\
+    dataflow_node (to_c06 (nf o)) = dataflow_node (to_c06 o) /\
+    is_cf H (to_c06 (nf o)) = is_cf H (to_c06 o).
+  Proof. destruct o, d; repeat split. Qed.
+  Lemma cf_ports_nf (o : cop) d : OK o -> cf_ports (to_c06 (nf o)) d = cf_ports (to_c06 o) d.
+  Proof.
+    intros [O _]. destruct o, d; try reflexivity. cbn in *.
+    destruct sum; try discriminate O; cbn; f_equal; apply map_length.
+  Qed.
+  Lemma static_nf (o : cop) d : OK o -> opt_rel kind_same (static_port ct (to_c06 o) d) (static_port ct (to_c06 (nf o)) d).
+  Proof.
+    intros [O _]. destruct o, d; try exact I; cbn [to_c06 op_nf static_port opt_rel].
+    - cbn. repeat split; apply row_same_nf.
+    - apply kind_same_poly_nf.
+    - cbn. unfold ty_same, enc.
+      destruct (value_roundtrip_all H SH h_enc h_dec h_nf h_type h_ok h_rt v O) as (_ & _ & C & _).
+      unfold same_encoding in C. now rewrite C.
+    - apply kind_same_poly_nf.
+    - apply ty_same_nf.
+    - apply kind_same_poly_nf.
+  Qed.
+
+  (* the specification's classification of every port of the decoded operation is the one of the original, up
+     to the encoding of the types it carries *)
+  Theorem spec_port_kind_nf (o : cop) d z : OK o ->
+    pspec_same (spec_port_kind ct (to_c06 o) d z) (spec_port_kind ct (to_c06 (nf o)) d z).
+  Proof.
+    intros O. rewrite !(spk_is_view H h_type).
+    destruct (bools_nf o d) as (-> & -> & -> & ->). rewrite (cf_ports_nf o d O).
+    apply spk_view_same; [|exact (static_nf o d O)].
+    pose proof (spec_sig_nf o O) as E.
+    destruct (spec_sig (to_c06 o)) as [s|], (spec_sig (to_c06 (nf o))) as [s'|]; cbn in E; try discriminate; [|exact I].
+    cbn [opt_rel]. apply enc_rows_same. unfold enc_rows in *. congruence.
+  Qed.
+
+  Lemma tag_range_of_spec (o : cop) n : spec_num_out (to_c06 o) = Some n -> tag_in_range o = true.
+  Proof.
+    destruct o; try reflexivity. unfold spec_num_out. cbn.
+    destruct (Z.of_N tag <? 0) eqn:E; [lia|]. rewrite N_nat_N_Z. unfold rows_of.
+    destruct sum; cbn; try discriminate; destruct (nth_error _ _); try discriminate; reflexivity.
+  Qed.
+  Lemma tag_range_nf (o : cop) : tag_in_range o = true -> tag_in_range (nf o) = true.
+  Proof.
+    destruct o; try reflexivity. cbn. rewrite nth_rows_nf. now destruct (nth_error _ _).
+  Qed.
+  Lemma spec_num_out_nf (o : cop) n : OK o -> spec_num_out (to_c06 o) = Some n -> spec_num_out (to_c06 (nf o)) = Some n.
+  Proof.
+    intros O E.
+    pose proof (proj2 (proj2 (facts_are_has_sig H h_type o (OK_bridge_ok o O))) n E) as F.
+    rewrite <- (nf_facts o O) in F.
+    rewrite (num_out_assigned H h_type _ (nf_bridge_ok o) (tag_range_nf o (tag_range_of_spec o n E))) in F.
+    destruct (spec_num_out (to_c06 (nf o))) as [m|]; cbn in F; [|discriminate].
+    f_equal. apply Nnat.Nat2N.inj. congruence.
+  Qed.
+
+  Theorem codec_preserves_spec (o : cop) (parent : N) : OK o ->
+    let o2 := op_deserialize H SH h_dec (op_to_serial H SH h_enc o parent) in
+    (forall s, has_sig (to_c06 o) s ->
+       exists s2 f2, has_sig (to_c06 o2) s2 /\ rows_same s s2 /\ df_sig (to_c06 o2) = Ret f2 /\ (f_in f2, f_out f2) = s2) /\
+    (forall s2, has_sig (to_c06 o2) s2 -> exists s, has_sig (to_c06 o) s /\ rows_same s s2) /\
+    (forall s, has_inner_sig (to_c06 o) s ->
+       exists s2 f2, has_inner_sig (to_c06 o2) s2 /\ rows_same s s2 /\ inner_sig (to_c06 o2) = Ret f2 /\ (f_in f2, f_out f2) = s2) /\
+    (forall n, spec_num_out (to_c06 o) = Some n ->
+       spec_num_out (to_c06 o2) = Some n /\ num_out (to_c06 o2) = Ret (Z.of_nat n)) /\
+    (forall d z, match spec_port_kind ct (to_c06 o) d z with
+                 | Port k => exists k2, port_kind vt (to_c06 o2) d z = Ret k2 /\ kind_same k k2
+                 | NoPort => is_typed (port_kind vt (to_c06 o2) d z) = false
+                 | Unspecified => True
+                 end) /\
+    facts_of o2 = enc_reports (reports_of (to_c06 o)).
+  Proof.
+    intros O o2.
+    assert (E2 : o2 = nf o) by exact (proj1 (op_roundtrip_all H SH h_enc h_dec h_nf h_type h_ok h_rt o parent O)).
+    rewrite E2. clear o2 E2. repeat apply conj.
+    - intros s Hs. apply has_sig_iff in Hs. pose proof (spec_sig_nf o O) as E. rewrite Hs in E.
+      destruct (spec_sig (to_c06 (nf o))) as [s2|] eqn:E2; cbn in E; [|discriminate].
+      assert (H2 : has_sig (to_c06 (nf o)) s2) by now apply has_sig_iff.
+      destruct (sig_sound V _ _ H2) as (f2 & Hf & Hr).
+      exists s2, f2. repeat split; try assumption. unfold rows_same. congruence.
+    - intros s2 Hs. apply has_sig_iff in Hs. pose proof (spec_sig_nf o O) as E. rewrite Hs in E.
+      destruct (spec_sig (to_c06 o)) as [s|] eqn:E1; cbn in E; [|discriminate].
+      exists s. split; [now apply has_sig_iff|]. unfold rows_same. congruence.
+    - intros s Hs. apply has_inner_iff in Hs. pose proof (spec_inner_nf o O) as E. rewrite Hs in E.
+      destruct (spec_inner_sig (to_c06 (nf o))) as [s2|] eqn:E2; cbn in E; [|discriminate].
+      assert (H2 : has_inner_sig (to_c06 (nf o)) s2) by now apply has_inner_iff.
+      destruct (inner_sound V _ _ H2) as (f2 & Hf & Hr).
+      exists s2, f2. repeat split; try assumption. unfold rows_same. congruence.
+    - intros n E. pose proof (spec_num_out_nf o n O E) as E2. split; [exact E2|]. now apply num_out_correct.
+    - intros d z. pose proof (spec_port_kind_nf o d z O) as S. pose proof (port_kind_spec V vt (to_c06 (nf o)) d z) as P.
+      change (ctype_of V vt) with ct in P.
+      destruct (spec_port_kind ct (to_c06 o) d z) as [k| |], (spec_port_kind ct (to_c06 (nf o)) d z) as [k2| |];
+        cbn in S; try contradiction; try exact I; [|exact P].
+      exists k2. split; assumption.
+    - rewrite (nf_facts o O). apply facts_are_reports. now apply OK_bridge_ok.
+  Qed.
+End CodecBridge.
+
+(* ================= depth 0: no function-valued constants, no hypothesis left ================= *)
+From HV Require proofs.CodecDocP.
+Notation E0 := CodecDocP.E0.
+Notation e0 := CodecDocP.e0.
+Notation e0_type := CodecDocP.e0_type.
+Notation e0_ok := CodecDocP.e0_ok.
+Definition codec_preserves_spec_depth0 :=
+  codec_preserves_spec E0 E0 e0 e0 e0 e0_type e0_ok CodecDocP.e0_rt.
+
+(* ================= the sugar tag operations: C05's [sugar_tag] is C06's some_new / left_new / right_new ========= *)
+Theorem sugar_tags_agree H (s : tagsugar) :
+  to_c06 (sugar_tag H s) =
+    match s with
+    | TgSome l => some_new l
+    | TgRight l r | TgBreak l r => right_new (TSum [l; r])
+    | TgLeft l r | TgContinue l r => left_new (TSum [l; r])
+    end /\
+  has_sig (to_c06 (sugar_tag H s))
+    match s with
+    | TgSome l => (l, [TSum [[]; l]])
+    | TgRight l r | TgBreak l r => (r, [TSum [l; r]])
+    | TgLeft l r | TgContinue l r => (l, [TSum [l; r]])
+    end.
+Proof.
+  destruct s as [l|l r|l r|l r|l r]; (split; [reflexivity|]); cbn.
+  - exact (S_Tag _ 1%nat _ [[]; l] l (SR_sum _) eq_refl).
+  - exact (S_Tag _ 1%nat _ [l; r] r (SR_sum _) eq_refl).
+  - exact (S_Tag _ 0%nat _ [l; r] l (SR_sum _) eq_refl).
+  - exact (S_Tag _ 0%nat _ [l; r] l (SR_sum _) eq_refl).
+  - exact (S_Tag _ 1%nat _ [l; r] r (SR_sum _) eq_refl).
+Qed.
+
+(* ================= non-vacuity ================= *)
+(* a definition-backed extension type (comes back opaque: the decoded rows are equal only up to the encoding) *)
+Definition ex_td : typedef := {| td_ext := 7%N; td_name := 8%N; td_descr := 9%N; td_params := []; td_bound := Explicit Any |}.
+Definition ex_ext : ty := TExt ex_td [] Generic.
+Definition ex_opq : ty := TOpaque 7%N 8%N [] Any.
+Notation cop0 := (CodecOps.op E0).
+Notation deser0 := (op_deserialize E0 E0 e0).
+Notation ser0 := (op_to_serial E0 E0 e0).
+
+(* Call of forall (r : [Type]). r -> r instantiated at [usize, ext]: two value ports per side, the function port at 2 *)
+Definition exb_poly : polytype := PT [PList (PType Any)] (FT [TRowVar 0 Any] [TRowVar 0 Any] []).
+Definition exb_call : cop0 := CodecOps.OCall exb_poly (FT [TUSize; ex_ext] [TUSize; ex_ext] []) [ASeq [AType TUSize; AType ex_ext]].
+Example ex_bridge_call :
+  OpOK E0 e0_ok exb_call /\
+  has_sig (to_c06 exb_call) ([TUSize; ex_ext], [TUSize; ex_ext]) /\
+  spec_port_kind (ct E0 e0_type) (to_c06 exb_call) In 2 = Port (FunctionKind (pl exb_poly)) /\
+  spec_num_out (to_c06 exb_call) = Some 2%nat /\
+  (* the decoded operation: extension type opaque, still two value ports per side and the function port at 2 *)
+  has_sig (to_c06 (deser0 (ser0 exb_call 0%N))) ([TUSize; ex_opq], [TUSize; ex_opq]) /\
+  port_kind (vt E0 e0_type) (to_c06 (deser0 (ser0 exb_call 0%N))) In 2 = Ret (FunctionKind (pl exb_poly)) /\
+  port_kind (vt E0 e0_type) (to_c06 (deser0 (ser0 exb_call 0%N))) In 1 = Ret (ValueKind ex_opq) /\
+  num_out (to_c06 (deser0 (ser0 exb_call 0%N))) = Ret 2 /\
+  rows_same ([TUSize; ex_ext], [TUSize; ex_ext]) ([TUSize; ex_opq], [TUSize; ex_opq]) /\
+  f_outer (op_facts E0 e0_type exb_call) = Some (enc_rows ([TUSize; ex_ext], [TUSize; ex_ext])).
+Proof.
+  repeat split; try reflexivity; try apply S_Call.
+Qed.
+
+(* TailLoop with just-inputs [ext], just-outputs [usize; qubit], rest [qubit] *)
+Definition exb_loop : cop0 := CodecOps.OTailLoop [ex_ext] [TQubit] [TUSize; TQubit] [].
+Example ex_bridge_tailloop :
+  OpOK E0 e0_ok exb_loop /\
+  has_sig (to_c06 exb_loop) ([ex_ext; TQubit], [TUSize; TQubit; TQubit]) /\
+  has_inner_sig (to_c06 exb_loop) ([ex_ext; TQubit], [TSum [[ex_ext]; [TUSize; TQubit]]; TQubit]) /\
+  has_sig (to_c06 (deser0 (ser0 exb_loop 0%N))) ([ex_opq; TQubit], [TUSize; TQubit; TQubit]) /\
+  has_inner_sig (to_c06 (deser0 (ser0 exb_loop 0%N))) ([ex_opq; TQubit], [TSum [[ex_opq]; [TUSize; TQubit]]; TQubit]) /\
+  num_out (to_c06 (deser0 (ser0 exb_loop 0%N))) = Ret 3 /\
+  op_facts E0 e0_type (deser0 (ser0 exb_loop 0%N)) = enc_reports (c06_reports E0 e0_type (to_c06 exb_loop)).
+Proof.
+  repeat split; try reflexivity.
+  - exact (S_TailLoop _ [ex_ext] [TQubit] [TUSize; TQubit] []).
+  - exact (I_TailLoop _ [ex_ext] [TQubit] [TUSize; TQubit] []).
+  - exact (S_TailLoop _ [ex_opq] [TQubit] [TUSize; TQubit] []).
+  - exact (I_TailLoop _ [ex_opq] [TQubit] [TUSize; TQubit] []).
+Qed.
+
+(* Conditional over the compact UnitSum(2) (decoded as the general Sum([[],[]]): equal only up to Python equality)
+   with one other input *)
+Definition exb_cond : cop0 := CodecOps.OConditional (TUnitSum 2) [ex_ext] [TQubit].
+Example ex_bridge_conditional :
+  OpOK E0 e0_ok exb_cond /\
+  has_sig (to_c06 exb_cond) ([TUnitSum 2; ex_ext], [TQubit]) /\
+  case_inputs (to_c06 exb_cond) 1 [ex_ext] /\
+  has_sig (to_c06 (deser0 (ser0 exb_cond 0%N))) ([TSum [[]; []]; ex_opq], [TQubit]) /\
+  case_inputs (to_c06 (deser0 (ser0 exb_cond 0%N))) 1 [ex_opq] /\
+  rows_same ([TUnitSum 2; ex_ext], [TQubit]) ([TSum [[]; []]; ex_opq], [TQubit]) /\
+  ([TUnitSum 2; ex_ext], [TQubit]) <> ([TSum [[]; []]; ex_opq], [TQubit]).
+Proof.
+  repeat split; try reflexivity; try discriminate.
+  - exact (S_Conditional _ (TUnitSum 2) [ex_ext] [TQubit]).
+  - exact (CI _ (TUnitSum 2) [[]; []] [ex_ext] (Some [TQubit]) 1%nat [] (SR_unit 2) eq_refl).
+  - exact (S_Conditional _ (TSum [[]; []]) [ex_opq] [TQubit]).
+  - exact (CI _ (TSum [[]; []]) [[]; []] [ex_opq] (Some [TQubit]) 1%nat [] (SR_sum _) eq_refl).
+Qed.
+
+(* the sugar operation Right([ext], [usize, qubit]) = Tag 1 *)
+Definition exb_right : cop0 := sugar_tag E0 (TgRight [ex_ext] [TUSize; TQubit]).
+Example ex_bridge_tag_sugar :
+  OpOK E0 e0_ok exb_right /\
+  to_c06 exb_right = right_new (TSum [[ex_ext]; [TUSize; TQubit]]) /\
+  has_sig (to_c06 exb_right) ([TUSize; TQubit], [TSum [[ex_ext]; [TUSize; TQubit]]]) /\
+  has_sig (to_c06 (deser0 (ser0 exb_right 0%N))) ([TUSize; TQubit], [TSum [[ex_opq]; [TUSize; TQubit]]]) /\
+  port_kind (vt E0 e0_type) (to_c06 (deser0 (ser0 exb_right 0%N))) Out 0 = Ret (ValueKind (TSum [[ex_opq]; [TUSize; TQubit]])) /\
+  num_out (to_c06 (deser0 (ser0 exb_right 0%N))) = Ret 1.
+Proof.
+  repeat split; try reflexivity.
+  - exact (S_Tag _ 1%nat _ [[ex_ext]; [TUSize; TQubit]] [TUSize; TQubit] (SR_sum _) eq_refl).
+  - exact (S_Tag _ 1%nat _ [[ex_opq]; [TUSize; TQubit]] [TUSize; TQubit] (SR_sum _) eq_refl).
+Qed.
+
+(* the translation covers everything both models have *)
+Theorem translation_covers H :
+  (forall o : CodecOps.op H, c06_only (to_c06 o) = false) /\
+  (forall o' : op (V H), c06_only o' = false -> exists o : CodecOps.op H, to_c06 o = o') /\
+  (forall o' : op (V H), of_c06 o' = None <-> c06_only o' = true) /\
+  (forall (o' : op (V H)) (o : CodecOps.op H), of_c06 o' = Some o -> to_c06 o = o').
+Proof.
+  repeat split.
+  - apply to_c06_expressible.
+  - apply to_c06_onto.
+  - apply of_c06_none.
+  - apply of_c06_none.
+  - apply of_c06_sound.
+Qed.
